@@ -60,10 +60,15 @@ theorem rule_nothing_off_link (known : List Wire.Rec) (i : MyIntf) (reg : Regist
   simp [ptrRule, ptrAdditionals, h, hm]
 
 /-- a service that is not announced on the interface, or has no in-subnet address of the
-    querier's family, is never the instance an SRV / TXT / ANY question is answered from -/
+    querier's family, is never the instance an SRV / TXT / ANY question is answered from; and the
+    instance it is answered from is a registered service whose CURRENT name - the name as
+    registered, after the renames by conflict resolution - is the name asked for, up to letter
+    case (repair of D39: the lower-case map key was resolved, so that a renamed name with
+    upper-case letters was still answered for under its OLD name and not under the new one) -/
 theorem rule_instance_announced (services : List (BList × Service)) (i : MyIntf) (reg : Registry) (v4 : Bool) (qname : BList)
     (svc : Service) (h : instanceOf services i reg v4 qname = some svc) :
-    svc.announcedOn i.index = true ∧ addrsOn svc i v4 ≠ [] ∧ ∃ k, (k, svc) ∈ services ∧ reg.resolveName k = lower qname := by
+    svc.announcedOn i.index = true ∧ addrsOn svc i v4 ≠ [] ∧
+    ∃ k, (k, svc) ∈ services ∧ lower (reg.resolveName svc.fullname) = lower qname := by
   unfold instanceOf at h
   split at h
   · rename_i k svc' hf
@@ -221,5 +226,32 @@ example :
     (handleQuery (iter (init 1000000 [eth0]) { now := 1000000, jitter := 7, cmds := [.register web] }).1 1000100
       { ifIdx := 2, sockV4 := true, src := src5353, srcV4 := true, srcPort := 5353, msg := qPtr } eth0).2 = [] := by
   decide +kernel
+
+/-! ### a renamed instance name with upper-case letters (repair of D39) -/
+
+/-- `Web._http._tcp.local.` was renamed to `Web (2)._http._tcp.local.` by conflict resolution -/
+def renamedFull : BList :=
+  [0x57,0x65,0x62,0x20,0x28,0x32,0x29,0x2e,0x5f,0x68,0x74,0x74,0x70,0x2e,0x5f,0x74,0x63,0x70,0x2e,0x6c,0x6f,0x63,0x61,0x6c,0x2e]
+
+def renamedReg : Registry := { nameChanges := [(webMixed.fullname, renamedFull)] }
+
+def renamedServices : List (BList × Service) := [(lower webMixed.fullname, webMixed.setStatus 2 .announced)]
+
+/-- REGRESSION (D39, witness corpus/C08/d39_mixed_case_rename_not_defended.ops): after the
+    rename the daemon answers SRV / TXT / ANY questions for the NEW name (asked in any letter
+    case) and no longer for the original one; before the repair it was the other way round for
+    names with upper-case letters -/
+example :
+    (instanceOf renamedServices eth0dual renamedReg true (lower renamedFull)).isSome = true ∧
+    (instanceOf renamedServices eth0dual renamedReg true renamedFull).isSome = true ∧
+    instanceOf renamedServices eth0dual renamedReg true webMixed.fullname = none ∧
+    instanceOf renamedServices eth0dual renamedReg true (lower webMixed.fullname) = none := by decide
+
+/-- the instance an SRV / TXT / ANY question is answered from does not depend on the letter
+    case of the question, nor on the key the service is filed under -/
+theorem rule_instance_case_insensitive (services : List (BList × Service)) (i : MyIntf) (reg : Registry) (v4 : Bool)
+    (q1 q2 : BList) (h : lower q1 = lower q2) : instanceOf services i reg v4 q1 = instanceOf services i reg v4 q2 := by
+  unfold instanceOf
+  rw [h]
 
 end Mdns.Props.C06
